@@ -372,6 +372,7 @@ def broadcast_to(x, shape):
     """
     from ._coo import COO
 
+    shape = tuple(shape)
     if shape == x.shape:
         return x
 
